@@ -1,4 +1,5 @@
 mod c01;
+mod c01s;
 mod c02;
 mod c03;
 mod c04;
